@@ -770,8 +770,56 @@ fn compose_universe(r: &Runner) {
     });
 }
 
+/// WORST-CASE LENGTH of the algorithm: quotient sequences that repeat a short pattern of medium quotients (2^16 ... 2^31,
+/// interleaved with 1s) until the width is full. A Lehmer step certifies only one or two Euclidean steps on such
+/// inputs, so the number of outer iterations is several times that of random operands - the inputs an iteration bound,
+/// a fixed-size work buffer or a step counter would be sized against.
+fn periodic_quotients(r: &Runner) {
+    let pats: Vec<Vec<u64>> = {
+        let mut p: Vec<Vec<u64>> = vec![vec![1], vec![2], vec![3], vec![5, 1], vec![1, 2], vec![1 << 16], vec![(1 << 16) + 1, 1], vec![1 << 20, 1, 1 << 10, 1]];
+        for q in [(1u64 << 22) + 1, (1 << 25) + 3, (1 << 28) - 1, (1 << 30) - 1, (1 << 31) + 5, (1 << 32) - 1, 1 << 32] {
+            p.push(vec![q]);
+            p.push(vec![q, 1]);
+            p.push(vec![q, 1, 1]);
+            p.push(vec![q, 2]);
+            p.push(vec![q, 1, q / 3 + 1, 1]);
+        }
+        p
+    };
+    for bits in [512usize, 1023, 1024] {
+        let m = pow2(bits);
+        let mut pairs: Vec<(BigUint, BigUint)> = vec![];
+        for pat in &pats {
+            for g in [1u32, 6] {
+                for first in 0..pat.len() {
+                    let (mut a, mut b) = (BigUint::from(g), BigUint::zero());
+                    let mut k = first;
+                    loop {
+                        let na = &a * pat[k % pat.len()] + &b;
+                        if na >= m {
+                            break;
+                        }
+                        b = a;
+                        a = na;
+                        k += 1;
+                    }
+                    pairs.push((a, b));
+                }
+            }
+        }
+        pairs.sort();
+        pairs.dedup();
+        r.universe(&format!("periodic quotient sequences filling the width: {} pairs from {} patterns of medium quotients", pairs.len(), pats.len()), bits, pairs.len(), |i, l| {
+            let (a, b) = &pairs[i];
+            gcd_case(l, bits, a, b);
+            gcd_case(l, bits, b, a);
+        });
+    }
+}
+
 fn c12(r: &Runner) {
     compose_universe(r);
+    periodic_quotients(r);
     r.set_rule("S(B)^2 for B <= 8 (10 thorough); all pairs of the wide universe at edge widths; a = b, a = b +- 1; and the QUOTIENT-SEQUENCE universe: the tree of inverse Euclid steps (a,b) -> (q*a+b, a) from seeds (g,0), g in {1,2,2^20,15015,2^61-1,2^64+1,2^128+1}, q in {1,2,3,2^32-1,2^32,2^63,2^64-1}, explored deviation-bounded (q = 1, the Fibonacci path, is free; any other quotient costs 1): EVERY sequence with at most D deviations is followed until the pair no longer fits the width and every node is a checked pair (gcd, lcm, gcd_extended in both argument orders, the Lehmer matrix of the pair and the word-level prefix matrices of its leading 128 bits). from_u64 on all pairs < 2^10 and on B64^2. non-trivial: both operands non-zero and different");
     for bits in 0..=if r.is_thorough() { 10usize } else { 8 } {
         let uv = small_all(bits);
